@@ -6,6 +6,7 @@ package c05
 
 import (
 	"bytes"
+	"context"
 	"encoding/json"
 	"fmt"
 	"os"
@@ -21,6 +22,10 @@ import (
 	"github.com/KevoDB/kevo/pkg/common/iterator/filtered"
 	"github.com/KevoDB/kevo/pkg/engine"
 	"github.com/KevoDB/kevo/pkg/engine/storage"
+	"github.com/KevoDB/kevo/pkg/grpc/service"
+	"github.com/KevoDB/kevo/pkg/transaction"
+	pb "github.com/KevoDB/kevo/proto/kevo"
+	"google.golang.org/grpc"
 
 	"verif/internal/drive"
 	"verif/internal/ev"
@@ -30,7 +35,7 @@ import (
 const rule = "case = rapid-drawn build program (put/del/tx/batch/flush/reopen and, unless excluded, 'retire' = flush everything then drop the " +
 	"flushed log files so reads are served from SSTables only) over small memtables, followed by 20-60 drawn queries: full scan, range " +
 	"[start,end) with bounds present/absent/between keys/equal/inverted/nil, Seek(t)+Next*k, SeekToLast, the same through BoundedIterator " +
-	"and prefix/suffix FilteredIterator as the service composes them, and inside read-write transactions with uncommitted puts/deletes " +
+	"and prefix/suffix FilteredIterator as the service composes them, KevoService.Scan/TxScan called directly with prefix/suffix/range/limit options that have a documented meaning, and inside read-write transactions with uncommitted puts/deletes " +
 	"overlaid and read-only transactions; oracle = sorted live keys of the map model (with overlay) filtered by the query, iterators read " +
 	"the way KevoService.Scan reads them (tombstones skipped); concurrent phase: scans next to writers of a disjoint key set must be strictly " +
 	"ascending, duplicate-free and contain every stable key. non-trivial = at least 3 layers (memtables+SSTables) hold data and at least " +
@@ -201,6 +206,9 @@ type txLike interface {
 
 // runQuery executes one query against the engine and compares with the model.
 func runQuery(e *engine.EngineFacade, m drive.Model, p *drive.Program, tg [][]byte, q *Query) *failure {
+	if q.Kind == "svc" {
+		return runSvcQuery(e, m, p, tg, q)
+	}
 	bound := func(i int) []byte {
 		if i < 0 || i >= len(tg) {
 			return nil
@@ -408,6 +416,120 @@ func runQuery(e *engine.EngineFacade, m drive.Model, p *drive.Program, tg [][]by
 	return &failure{"bad-query", q.Kind}
 }
 
+// scanStream collects what KevoService.Scan / TxScan send.
+type scanStream struct {
+	grpc.ServerStream
+	out []kv
+}
+
+func (s *scanStream) Context() context.Context { return context.Background() }
+func (s *scanStream) Send(r *pb.ScanResponse) error {
+	s.out = append(s.out, kv{append([]byte{}, r.Key...), append([]byte{}, r.Value...)})
+	return nil
+}
+
+type txScanStream struct {
+	grpc.ServerStream
+	out []kv
+}
+
+func (s *txScanStream) Context() context.Context { return context.Background() }
+func (s *txScanStream) Send(r *pb.TxScanResponse) error {
+	s.out = append(s.out, kv{append([]byte{}, r.Key...), append([]byte{}, r.Value...)})
+	return nil
+}
+
+// runSvcQuery drives KevoService.Scan (Via engine/rotx) or TxScan on an open
+// read-write handle with an overlay (Via rwtx). Only option combinations with
+// a documented meaning are generated: filters only (prefix, suffix, both),
+// range only, or neither; Limit <= 0 means no limit.
+func runSvcQuery(e *engine.EngineFacade, m drive.Model, p *drive.Program, tg [][]byte, q *Query) *failure {
+	reg := transaction.NewRegistry()
+	defer reg.GracefulShutdown(context.Background())
+	svc := service.NewKevoServiceServer(e, reg, nil)
+	bound := func(i int) []byte {
+		if i < 0 || i >= len(tg) {
+			return nil
+		}
+		return tg[i]
+	}
+	var a, b []byte
+	keep := func(k []byte) bool { return true }
+	mode := "neither"
+	switch {
+	case len(q.Pre) > 0 && len(q.Suf) > 0:
+		mode = "prefix+suffix"
+		keep = func(k []byte) bool { return bytes.HasPrefix(k, q.Pre) && bytes.HasSuffix(k, q.Suf) }
+	case len(q.Pre) > 0:
+		mode = "prefix"
+		keep = func(k []byte) bool { return bytes.HasPrefix(k, q.Pre) }
+	case len(q.Suf) > 0:
+		mode = "suffix"
+		keep = func(k []byte) bool { return bytes.HasSuffix(k, q.Suf) }
+	case q.A >= 0 || q.B >= 0:
+		mode = "range"
+		a, b = bound(q.A), bound(q.B)
+		keep = func(k []byte) bool {
+			return (a == nil || bytes.Compare(k, a) >= 0) && (b == nil || bytes.Compare(k, b) < 0)
+		}
+	}
+	ctx := "svc:" + mode + "/" + q.Via
+	var got []kv
+	var over []drive.TxOp
+	if q.Via == "rwtx" {
+		over = q.Over
+		br, err := svc.BeginTransaction(context.Background(), &pb.BeginTransactionRequest{ReadOnly: false})
+		if err != nil {
+			return &failure{"begin-error@" + ctx, err.Error()}
+		}
+		id := br.TransactionId
+		defer svc.RollbackTransaction(context.Background(), &pb.RollbackTransactionRequest{TransactionId: id})
+		for _, o := range over {
+			var err error
+			if o.Op == "put" {
+				_, err = svc.TxPut(context.Background(), &pb.TxPutRequest{TransactionId: id, Key: p.Keys[o.K], Value: o.V.Bytes()})
+			} else {
+				_, err = svc.TxDelete(context.Background(), &pb.TxDeleteRequest{TransactionId: id, Key: p.Keys[o.K]})
+			}
+			if err != nil {
+				return &failure{"tx-write-error@" + ctx, err.Error()}
+			}
+		}
+		st := &txScanStream{}
+		req := &pb.TxScanRequest{TransactionId: id, Prefix: q.Pre, Suffix: q.Suf, Limit: int32(q.NextN)}
+		if mode == "range" {
+			req.StartKey, req.EndKey = a, b
+		}
+		if err := svc.TxScan(req, st); err != nil {
+			return &failure{"scan-error@" + ctx, err.Error()}
+		}
+		got = st.out
+	} else {
+		st := &scanStream{}
+		req := &pb.ScanRequest{Prefix: q.Pre, Suffix: q.Suf, Limit: int32(q.NextN)}
+		if mode == "range" {
+			req.StartKey, req.EndKey = a, b
+		}
+		if err := svc.Scan(req, st); err != nil {
+			return &failure{"scan-error@" + ctx, err.Error()}
+		}
+		got = st.out
+	}
+	want := expected(m, p, over, keep)
+	if q.NextN > 0 && len(want) > q.NextN {
+		want = want[:q.NextN]
+	}
+	for i := range got {
+		if got[i].v == nil {
+			got[i].v = []byte{}
+		}
+	}
+	if d := equalKV(got, want); d != "" {
+		return &failure{"content@" + ctx, d}
+	}
+	return nil
+}
+
 type layerStats struct {
 	layers     int
 	multiLayer bool
@@ -608,7 +730,7 @@ func genCase(t *rapid.T) Case {
 	tg := targets(p.Keys)
 	nq := rapid.IntRange(20, 60).Draw(t, "nq")
 	c := Case{Program: p}
-	kinds := []string{"full", "range", "range", "seek", "seek", "seek", "last", "bounded", "prefix", "suffix", "presuf"}
+	kinds := []string{"full", "range", "range", "seek", "seek", "seek", "last", "bounded", "prefix", "suffix", "presuf", "svc", "svc", "svc"}
 	for i := 0; i < nq; i++ {
 		q := Query{
 			Kind: rapid.SampledFrom(kinds).Draw(t, "qkind"),
@@ -625,6 +747,28 @@ func genCase(t *rapid.T) Case {
 		case "last":
 			if rapid.Bool().Draw(t, "lastfull") {
 				q.A, q.B = -1, -1
+			}
+		case "svc":
+			// one of: prefix | suffix | prefix+suffix | range | neither
+			mode := rapid.SampledFrom([]string{"prefix", "prefix", "suffix", "both", "range", "neither"}).Draw(t, "svcmode")
+			k := p.Keys[rapid.IntRange(0, len(p.Keys)-1).Draw(t, "sfk")]
+			if mode == "prefix" || mode == "both" {
+				pl := rapid.IntRange(1, min(len(k), 4)).Draw(t, "spl")
+				q.Pre = append([]byte{}, k[:pl]...)
+			}
+			if mode == "suffix" || mode == "both" {
+				k2 := p.Keys[rapid.IntRange(0, len(p.Keys)-1).Draw(t, "sfk2")]
+				sl := rapid.IntRange(1, min(len(k2), 2)).Draw(t, "ssl")
+				q.Suf = append([]byte{}, k2[len(k2)-sl:]...)
+			}
+			if mode != "range" {
+				q.A, q.B = -1, -1
+			} else if q.A < 0 && q.B < 0 {
+				q.A = 0
+			}
+			q.NextN = rapid.SampledFrom([]int{0, 0, -1, 1, 2, 7}).Draw(t, "slimit")
+			if q.Via == "rotx" {
+				q.Via = "engine"
 			}
 		case "prefix", "suffix", "presuf":
 			k := p.Keys[rapid.IntRange(0, len(p.Keys)-1).Draw(t, "fk")]
